@@ -34,6 +34,7 @@ def parseOp : List String → Option Op
   | ["dt", i] => do some (.dt (← parseID i))
   | ["cs", n, l] => do some (.cs (← parseName n) (← parseFlag l "long" "exp"))
   | ["xs", k] => do some (.xs (← parseName k))
+  | ["renew", k, f] => do some (.renew (← parseName k) (← parseFlag f "far" "near"))
   | ["req", h, c] => do
     let hdr ← if h = "-" then some none else (parsePlain " _-" h).map some
     let ck ← if c = "-" then some none else do
@@ -54,6 +55,7 @@ def parseOp : List String → Option Op
 
 def errStr : SvcErr → String
   | .nf => "err nf" | .cf => "err cf" | .inv => "err inv" | .int => "err int"
+  | .nohandle => "err nohandle" | .unsupported => "err unsupported"
 
 def renderPw (r : PwRes) : String :=
   if r.ok then "ok" else
@@ -89,7 +91,8 @@ def parsePw (s : String) : Option PwRes :=
   | _ => none
 
 def parseSvcErr : String → Option SvcErr
-  | "nf" => some .nf | "cf" => some .cf | "inv" => some .inv | "int" => some .int | _ => none
+  | "nf" => some .nf | "cf" => some .cf | "inv" => some .inv | "int" => some .int
+  | "nohandle" => some .nohandle | "unsupported" => some .unsupported | _ => none
 
 def parseAns (op : Op) (s : String) : Option Ans :=
   if s.startsWith "panic:" then some .panic else
@@ -125,7 +128,7 @@ def step (s : State) (toks : List String) : State × String :=
 def opTag : Op → String
   | .cfg .. => "cfg" | .strong _ => "strong" | .cu _ => "cu" | .us .. => "us" | .du _ => "du" | .sp .. => "sp"
   | .cp .. => "cp" | .cas .. => "cas" | .ct .. => "ct" | .ut .. => "ut" | .dt _ => "dt" | .cs .. => "cs"
-  | .xs _ => "xs" | .req .. => "req" | .phc .. => "phc"
+  | .xs _ => "xs" | .req .. => "req" | .phc .. => "phc" | .renew .. => "renew"
 
 def ansTag : Ans → String
   | .pw r => if r.ok then "ok" else "refused"
